@@ -21,6 +21,7 @@ NOT_DECIDED = 'eventual convergence under an arbitrary PHY NXT/DIR schedule (a l
 
 
 def run(ctx):
+    _busy_covers_handover(ctx)
     w = ctx.ir('ULPIRegisterWindow', 'interface.ulpi')
     fsm = ctx.the_fsm(w)
     idle = fsm.init
@@ -159,3 +160,33 @@ def run(ctx):
             not [x for x in q.atoms(ds[0]) if not x[0].startswith('cfg:')]
         ctx.ob('C24.cross-gating', 'UTMITranslator.' + lhs, ok, ds[0].loc if ds else None,
                '%s <= %s: %s' % (lhs, rhs, [q.fmt(d) for d in ds]))
+
+
+def _busy_covers_handover(ctx):
+    """ULPIControlTranslator.busy is what keeps the transmitter off the bus while a register write is in progress
+    (UTMITranslator: bus_idle = ~control_translator.busy & ...).  It is a register, so it must already be raised by the
+    request itself: in the cycle after write_request is raised the register window drives the bus, and its own busy flag
+    is one cycle further behind.  For every site that raises register_window.write_request: whenever the request
+    expression is true, the busy value registered in that cycle is 1 (exact evaluation over the leaf conditions)."""
+    ct = ctx.ir('ULPIControlTranslator', 'interface.ulpi')
+    WR, BUSY = 'self.register_window.write_request', 'self.busy'
+    bd = sorted(ct.drivers(BUSY, exact=True), key=lambda a: a.order)
+    ctx.need(bd and all(a.domain != 'comb' for a in bd), 'ULPIControlTranslator.busy is a register')
+    sites = [a for a in ct.drivers(WR, exact=True) if not q.is_zero(a.rhs)]
+    ctx.need(sites, 'sites raising register_window.write_request')
+    for i, a in enumerate(sites):
+        leaves = q.bool_leaves(a.rhs, *[l.e for l in a.guard], *[x.rhs for x in bd], *[l.e for x in bd for l in x.guard])
+        bad = None
+        for asg in q.all_assignments(leaves):
+            if not q.eval_guard(a, asg) or not q.eval_expr(a.rhs, asg):
+                continue
+            val = None
+            for x in bd:                       # last assignment wins
+                if q.eval_guard(x, asg):
+                    val = q.eval_expr(x.rhs, asg)
+            if not val:
+                bad = {k: v for k, v in asg.items() if v}
+                break
+        ctx.ob('C24.busy-covers-handover', 'ULPIControlTranslator.busy@write_request#%d' % i, bad is None, a.loc,
+               'when a register write is requested the busy flag registered in that cycle must be 1, so that the transmitter sees '
+               'the bus taken in the very next cycle (when the register window starts driving it); busy stays 0 when %s' % (bad,))
